@@ -51,6 +51,7 @@ type State struct {
 	pcSeen   map[string]bool
 	localCells map[string][]smt.Term // heap key -> refs of local variables of the running frames (escaping Allocs)
 	atLock   *State // the state right after the last acquisition of a monitor lock (nil: none acquired yet)
+	factBase int    // snapshots: length of pc when the snapshot was taken; what follows are facts about values of that state learnt later
 }
 
 func (st *State) clone() *State {
@@ -141,7 +142,11 @@ func (st *State) clone() *State {
 }
 
 // snapshot returns an immutable view used as the "pre" state of events.
-func (st *State) snapshot() *State { return st.clone() }
+func (st *State) snapshot() *State {
+	n := st.clone()
+	n.factBase = len(n.pc)
+	return n
+}
 
 func (st *State) assume(t smt.Term) {
 	if t.IsTrue() {
@@ -200,6 +205,12 @@ func (e *Engine) heapArr(st *State, key string, idx, el smt.Sort) smt.Term {
 	for i := len(st.havocked) - 1; i >= 0; i-- {
 		p := st.havocked[i].prefix
 		if key == p || len(key) > len(p) && key[:len(p)] == p && (key[len(p)] == '.' || key[len(p)] == '>') {
+			if st.havocked[i].framed && e.x != nil && e.x.unit != nil && e.x.unit.entry != nil && st != e.x.unit.entry && st.gen == 0 {
+				// the array was forgotten by a framed havoc (a loop cut of a unit with a modifies clause) before it was ever
+				// touched: it still agrees with the entry state outside the unit's frame
+				e.x.framedHavoc(st, e.x.unit, key)
+				return st.heap[key]
+			}
 			return e.ctx.Const(fmt.Sprintf("H%dm%d<%s>", st.gen, st.havocked[i].id, key), smt.ArrayOf(idx, el))
 		}
 	}
@@ -284,7 +295,7 @@ func (e *Engine) loadPtr(st *State, p *Ptr) Value {
 		for i, l := range e.leaves(t) {
 			key := objKeyPrefix(p.Root) + prefix + l.Path
 			arr := e.heapArr(st, key, smt.Ref, l.Sort)
-			ls = append(ls, smt.Select(arr, p.Base))
+			ls = append(ls, e.ctx.SelectThrough(arr, p.Base))
 			if l.Sort == smt.Ref && e.unchangedSinceEntry(st, key, arr) {
 				olds = append(olds, i)
 			}
